@@ -54,18 +54,21 @@ Seven == {0, 90, 95, 99, -90, -95, -99}
 HotV(c) ==
   LET cells == CellsOf(c.X)
       NX == Neg(c.X)
+      st == HotStats(c.X)
+      stn == HotStats(NX)
+      adm == [p \in cells |-> HotCell(c.X, c.K, p[1], p[2], c.band, st)]
+      admn == [p \in cells |-> HotCell(NX, c.K, p[1], p[2], c.band, stn)]
       badval == {p \in cells : c.out[p[1]][p[2]] \notin Seven \/ c.outneg[p[1]][p[2]] \notin Seven}
-      badcls == {p \in cells : c.out[p[1]][p[2]] \notin HotAdmitted(c.X, c.K, p[1], p[2], c.band)}
-      badcln == {p \in cells : c.outneg[p[1]][p[2]] \notin HotAdmitted(NX, c.K, p[1], p[2], c.band)}
+      badcls == {p \in cells : c.out[p[1]][p[2]] \notin adm[p]}
+      badcln == {p \in cells : c.outneg[p[1]][p[2]] \notin admn[p]}
       \* negation symmetry is asserted on the cells that are not borderline
-      badneg == {p \in cells : /\ Cardinality(HotAdmitted(c.X, c.K, p[1], p[2], c.band)) = 1
-                               /\ c.outneg[p[1]][p[2]] # 0 - c.out[p[1]][p[2]]}
+      badneg == {p \in cells : Cardinality(adm[p]) = 1 /\ c.outneg[p[1]][p[2]] # 0 - c.out[p[1]][p[2]]}
   IN CASE badval # {} -> <<"hotspots_values", ToString(First(badval))>>
        [] badcls # {} -> <<"hotspots_class", ToString(<<First(badcls), c.out[First(badcls)[1]][First(badcls)[2]],
-                                                       HotAdmitted(c.X, c.K, First(badcls)[1], First(badcls)[2], c.band)>>)>>
+                                                       adm[First(badcls)]>>)>>
        [] badcln # {} -> <<"hotspots_class", "negated raster " \o ToString(First(badcln))>>
        [] badneg # {} -> <<"hotspots_negation", ToString(First(badneg))>>
-       [] OTHER -> <<"ok", ToString(Cardinality({p \in cells : Cardinality(HotAdmitted(c.X, c.K, p[1], p[2], c.band)) > 1}))>>
+       [] OTHER -> <<"ok", ToString(Cardinality({p \in cells : Cardinality(adm[p]) > 1}))>>
 
 \* ---------------------------------------------------------------- the ladder, driven directly
 Threshold(zz) ==
